@@ -1,0 +1,66 @@
+//! Verification hooks, compiled only with the off-by-default `verif` feature.
+//!
+//! Exposes the crate-private frame codec through plain data, and the crate-private
+//!   SHA-1 and Base64 traits, so that an external harness can drive them.
+
+use crate::error::WebsocketError;
+use crate::frame::{Frame, Opcode};
+
+use std::convert::TryFrom;
+use std::io::Read;
+
+pub use crate::util::base64::{Base64Decode, Base64Encode};
+pub use crate::util::sha1::SHA1Hash;
+
+/// The fields of a WebSocket frame as plain data.
+#[derive(Debug, Clone, PartialEq, Eq)]
+pub struct FrameParts {
+    /// FIN bit.
+    pub fin: bool,
+    /// RSV1-3 bits.
+    pub rsv: [bool; 3],
+    /// Opcode (low four bits of the first byte).
+    pub opcode: u8,
+    /// MASK bit.
+    pub mask: bool,
+    /// Payload length field.
+    pub length: u64,
+    /// Masking key.
+    pub masking_key: [u8; 4],
+    /// Payload (unmasked).
+    pub payload: Vec<u8>,
+}
+
+impl From<Frame> for FrameParts {
+    fn from(f: Frame) -> Self {
+        Self {
+            fin: f.fin,
+            rsv: f.rsv,
+            opcode: f.opcode as u8,
+            mask: f.mask,
+            length: f.length,
+            masking_key: f.masking_key,
+            payload: f.payload,
+        }
+    }
+}
+
+/// Decodes one frame from the reader with the crate's blocking frame decoder.
+pub fn decode<R: Read>(reader: R) -> Result<FrameParts, WebsocketError> {
+    Frame::from_stream(reader).map(FrameParts::from)
+}
+
+/// Encodes the frame with the crate's frame serialiser.
+pub fn encode(parts: FrameParts) -> Result<Vec<u8>, WebsocketError> {
+    let frame = Frame {
+        fin: parts.fin,
+        rsv: parts.rsv,
+        opcode: Opcode::try_from(parts.opcode)?,
+        mask: parts.mask,
+        length: parts.length,
+        masking_key: parts.masking_key,
+        payload: parts.payload,
+    };
+
+    Ok(frame.into())
+}
